@@ -183,6 +183,12 @@ func expect(op string, a, b operand) expectation {
 		if op == "GreaterThanOrEqualTo" {
 			strict = cmp > 0
 		}
+		if cmp == 0 && an.Inf == 0 && !model.NumEqualDoc(a.f, b.f) {
+			// Exactly the same number stored at two precisions whose shortest decimal texts differ:
+			// Equals answers False, so "LessThan Or Equals" answers False for x <= x. Exact
+			// arithmetic says True; kept in its own narrow class (same root cause as C03's F-47).
+			return expectation{kind: expBool, b: true, class: "exactly-equal-fractions-at-different-precisions"}
+		}
 		if cmp == 0 || strict {
 			return expectation{kind: expBool, b: true}
 		}
@@ -706,6 +712,11 @@ func sampledNumeric(c *core.Ctx, idx int64, r *core.Rand) {
 		if !out.Panicked && t.Type() == cty.Number && t.IsKnown() && !t.IsNull() {
 			a = mkOperand(gen.NumCase{V: t, Class: "library-result-" + pre.name})
 		}
+	}
+	// the same number stored at another precision (exactly, when the precision grows)
+	if r.Chance(1, 8) && !a.isInf() {
+		np := samplePrecs[r.Intn(len(samplePrecs))]
+		b = mkOperand(gen.NumCase{V: cty.NumberVal(new(big.Float).SetPrec(np).Set(a.f)), Class: fmt.Sprintf("receiver-at-p%d", np)})
 	}
 	op := numOps[r.Intn(len(numOps))]
 	nt := checkNum(c, idx, op, a, b, true)
